@@ -379,3 +379,35 @@ pub fn small_layers(name: &str) -> Vec<MLayer> {
 	}
 	out
 }
+
+/// A tile whose single feature spells its packed repeated fields in the other forms protobuf allows: the tag list
+/// split into two packed chunks (parsers must concatenate them), or as unpacked varints (parsers must accept both).
+pub fn encode_tile_alternative_packing(unpacked: bool) -> Vec<u8> {
+	let mut f = vec![];
+	key(&mut f, 1, 0);
+	varint(&mut f, 1);
+	if unpacked {
+		for t in [0u64, 0, 1, 1] {
+			key(&mut f, 2, 0);
+			varint(&mut f, t);
+		}
+	} else {
+		bytes_field(&mut f, 2, &[0, 0]);
+		bytes_field(&mut f, 2, &[1, 1]);
+	}
+	key(&mut f, 3, 0);
+	varint(&mut f, 1);
+	bytes_field(&mut f, 4, &[9, 2, 2]);
+	let mut l = vec![];
+	key(&mut l, 15, 0);
+	varint(&mut l, 2);
+	bytes_field(&mut l, 1, b"a");
+	bytes_field(&mut l, 2, &f);
+	bytes_field(&mut l, 3, b"k");
+	bytes_field(&mut l, 3, b"n");
+	bytes_field(&mut l, 4, &encode_value(Enc::Str, &MVal::Str("v".into())));
+	bytes_field(&mut l, 4, &encode_value(Enc::UInt64, &MVal::Int(5)));
+	let mut t = vec![];
+	bytes_field(&mut t, 3, &l);
+	t
+}
